@@ -1,5 +1,284 @@
-import TshVerif.Model.Parser
+/-
+  C09 - Multi-file programs link correctly and unused-function removal is safe.
+
+  Proved here, about the call-graph part of the parser model (Model/Parser.lean: `mergeUsed` = the merge
+  loop of evaluateImports, `getUsedFuncs`, `cleanProgram` = removal of unused functions; the model is
+  tied to parser.Parse by AST correspondence on generated import graphs in every run):
+    * `merge_keeps_own_edges`, `merge_takes_all_imported_edges`: merging the call graph of an imported
+      file never loses an edge -- neither of the importing file nor of ANY entry of the imported graph
+      (a live function can never look dead because of an incomplete merge);
+    * `reachable_functions_are_collected`: whenever `getUsedFuncs` returns, its result contains every
+      function reachable in the call graph from the start key (the top-level code is the key "");
+    * `removal_keeps_every_reachable_function`: `cleanProgram` keeps every function definition that top
+      level code can reach through calls, and changes nothing else: the result is the body filtered, in
+      the same order, all non-function statements kept;
+    * `removal_only_drops_functions`.
+  That every call is recorded in the graph (`recordCall` at each call site), the alias/prefix resolution
+  and definedness-before-use in the emitted scripts are decided by the import-graph oracle of the check.
+-/
+import TshVerif.Lemmas.Assoc
 namespace Tsh.C09
 open Tsh Tsh.Parser
+
+/-- `b` is a callee recorded for `a` -/
+def Edge (used : List (String × List String)) (a b : String) : Prop := ∃ cs, assocGet used a = some cs ∧ b ∈ cs
+
+/-! ### the merge of an imported call graph -/
+
+def addNew (found : List String) (callees : List String) : List String :=
+  callees.foldl (fun l c => if found.contains c then l else l ++ [c]) found
+
+theorem addNew_acc (found : List String) : ∀ (callees acc : List String) (x : String), x ∈ acc →
+    x ∈ callees.foldl (fun l c => if found.contains c then l else l ++ [c]) acc := by
+  intro callees
+  induction callees with
+  | nil => intro acc x h; simpa using h
+  | cons c rest ih =>
+    intro acc x h
+    simp only [List.foldl_cons]
+    apply ih
+    split
+    · exact h
+    · simp [h]
+
+theorem addNew_new (found : List String) : ∀ (callees acc : List String) (x : String), found ⊆ acc → x ∈ callees →
+    x ∈ callees.foldl (fun l c => if found.contains c then l else l ++ [c]) acc := by
+  intro callees
+  induction callees with
+  | nil => intro acc x _ h; simp at h
+  | cons c rest ih =>
+    intro acc x hsub h
+    simp only [List.foldl_cons]
+    simp at h
+    rcases h with rfl | h
+    · apply addNew_acc
+      split
+      · rename_i hc; exact hsub (by simpa using hc)
+      · simp
+    · apply ih _ _ _ h
+      split
+      · exact hsub
+      · intro y hy; simp [hsub hy]
+
+def mergeStep (acc : List (String × List String)) (e : String × List String) : List (String × List String) :=
+  match assocGet acc e.1 with
+  | none => acc ++ [(e.1, e.2)]
+  | some found => assocSet acc e.1 (addNew found e.2)
+
+theorem mergeUsed_eq (mine imported : List (String × List String)) : mergeUsed mine imported = imported.foldl mergeStep mine := by
+  unfold mergeUsed
+  congr 1
+
+theorem assocGet_append_none {β : Type} (m : List (String × β)) (k : String) (v : β) (h : assocGet m k = none) (k' : String) :
+    assocGet (m ++ [(k, v)]) k' = if k' = k then some v else assocGet m k' := by
+  unfold assocGet at *
+  rw [List.find?_append]
+  by_cases hk : k' = k
+  · subst hk
+    have : List.find? (fun x => x.1 == k') m = none := by simpa using h
+    simp [this]
+  · cases hf : List.find? (fun x => x.1 == k') m with
+    | none =>
+      have : (k == k') = false := by simp [Ne.symm hk]
+      simp [List.find?, this, hk]
+    | some x => simp [hk]
+
+theorem mergeStep_keeps (acc : List (String × List String)) (e : String × List String) (a b : String) (h : Edge acc a b) :
+    Edge (mergeStep acc e) a b := by
+  obtain ⟨cs, hg, hb⟩ := h
+  unfold mergeStep
+  cases hf : assocGet acc e.1 with
+  | none =>
+    refine ⟨cs, ?_, hb⟩
+    rw [assocGet_append_none _ _ _ hf]
+    have : a ≠ e.1 := by intro he; rw [he] at hg; rw [hg] at hf; cases hf
+    simp [this, hg]
+  | some found =>
+    by_cases ha : a = e.1
+    · subst ha
+      rw [hg] at hf
+      cases hf
+      exact ⟨_, assocGet_set_same _ _ _, addNew_acc _ _ _ _ hb⟩
+    · exact ⟨cs, by rw [assocGet_set_other _ _ _ _ ha]; exact hg, hb⟩
+
+theorem mergeStep_adds (acc : List (String × List String)) (e : String × List String) (c : String) (h : c ∈ e.2) :
+    Edge (mergeStep acc e) e.1 c := by
+  unfold mergeStep
+  cases hf : assocGet acc e.1 with
+  | none => exact ⟨e.2, by rw [assocGet_append_none _ _ _ hf]; simp, h⟩
+  | some found => exact ⟨_, assocGet_set_same _ _ _, addNew_new _ _ _ _ (fun _ hx => hx) h⟩
+
+theorem foldl_mergeStep_keeps : ∀ (imported acc : List (String × List String)) (a b : String), Edge acc a b →
+    Edge (imported.foldl mergeStep acc) a b := by
+  intro imported
+  induction imported with
+  | nil => intro acc a b h; simpa using h
+  | cons e rest ih => intro acc a b h; simp only [List.foldl_cons]; exact ih _ _ _ (mergeStep_keeps acc e a b h)
+
+/-- **The merge keeps every edge of the importing file.** -/
+theorem merge_keeps_own_edges (mine imported : List (String × List String)) (a b : String) (h : Edge mine a b) :
+    Edge (mergeUsed mine imported) a b := by
+  rw [mergeUsed_eq]; exact foldl_mergeStep_keeps imported mine a b h
+
+/-- **The merge takes over every edge of the imported graph** (of every entry, not only the first per key). -/
+theorem merge_takes_all_imported_edges : ∀ (imported mine : List (String × List String)) (e : String × List String) (c : String),
+    e ∈ imported → c ∈ e.2 → Edge (mergeUsed mine imported) e.1 c := by
+  intro imported
+  induction imported with
+  | nil => intro mine e c he; simp at he
+  | cons x rest ih =>
+    intro mine e c he hc
+    rw [mergeUsed_eq]
+    simp only [List.foldl_cons]
+    simp at he
+    rcases he with rfl | he
+    · exact foldl_mergeStep_keeps rest _ _ _ (mergeStep_adds mine e c hc)
+    · have := ih (mergeStep mine x) e c he hc
+      rwa [mergeUsed_eq] at this
+
+/-! ### reachability and removal -/
+
+inductive Reach (used : List (String × List String)) : String → String → Prop
+  | edge {a b} : Edge used a b → Reach used a b
+  | step {a b c} : Edge used a b → Reach used b c → Reach used a c
+
+def addUnique (acc : List String) (c : String) : List String := if acc.contains c then acc else acc ++ [c]
+
+theorem addUnique_mem (acc : List String) (c x : String) (h : x ∈ acc) : x ∈ addUnique acc c := by
+  unfold addUnique; split <;> simp [h]
+
+theorem addUnique_self (acc : List String) (c : String) : c ∈ addUnique acc c := by
+  unfold addUnique; split
+  · rename_i h; simpa using h
+  · simp
+
+theorem union_acc : ∀ (sub acc : List String) (x : String), x ∈ acc →
+    x ∈ sub.foldl (fun a y => if a.contains y then a else a ++ [y]) acc := by
+  intro sub
+  induction sub with
+  | nil => intro acc x h; simpa using h
+  | cons y rest ih => intro acc x h; simp only [List.foldl_cons]; exact ih _ _ (addUnique_mem acc y x h)
+
+theorem union_sub : ∀ (sub acc : List String) (x : String), x ∈ sub →
+    x ∈ sub.foldl (fun a y => if a.contains y then a else a ++ [y]) acc := by
+  intro sub
+  induction sub with
+  | nil => intro acc x h; simp at h
+  | cons y rest ih =>
+    intro acc x h
+    simp only [List.foldl_cons]
+    simp at h
+    rcases h with rfl | h
+    · exact union_acc rest _ _ (addUnique_self acc x)
+    · exact ih _ _ h
+
+/-- one step of the collection loop -/
+def collectStep (G : String → Option (List String)) (acc : List String) (c : String) : Option (List String) := do
+  let acc := if acc.contains c then acc else acc ++ [c]
+  let sub ← G c
+  pure (sub.foldl (fun a x => if a.contains x then a else a ++ [x]) acc)
+
+theorem collect_fold (G : String → Option (List String)) : ∀ (callees init r : List String),
+    callees.foldlM (collectStep G) init = some r →
+    (∀ x ∈ init, x ∈ r) ∧ (∀ c ∈ callees, c ∈ r ∧ ∃ sub, G c = some sub ∧ ∀ x ∈ sub, x ∈ r) := by
+  intro callees
+  induction callees with
+  | nil => intro init r h; simp [List.foldlM, pure] at h; subst h; simp
+  | cons c rest ih =>
+    intro init r h
+    simp only [List.foldlM_cons] at h
+    cases hs : collectStep G init c with
+    | none => simp [hs, bind, Option.bind] at h
+    | some acc1 =>
+      simp only [hs, bind, Option.bind] at h
+      obtain ⟨h1, h2⟩ := ih acc1 r h
+      unfold collectStep at hs
+      cases hg : G c with
+      | none => simp [hg, bind, Option.bind] at hs
+      | some sub =>
+        simp only [hg, bind, Option.bind, pure] at hs
+        cases hs
+        refine ⟨fun x hx => h1 x (union_acc _ _ _ (addUnique_mem init c x hx)), ?_⟩
+        intro d hd
+        simp at hd
+        rcases hd with rfl | hd
+        · exact ⟨h1 _ (union_acc _ _ _ (addUnique_self init d)), sub, hg, fun x hx => h1 x (union_sub _ _ _ hx)⟩
+        · exact h2 d hd
+
+theorem getUsedFuncs_succ (used : List (String × List String)) (fuel : Nat) (start : String) :
+    getUsedFuncs used (fuel + 1) start =
+      match assocGet used start with
+      | none => some []
+      | some callees => callees.foldlM (collectStep (getUsedFuncs used fuel)) (if start.length > 0 then [start] else []) := by
+  rw [getUsedFuncs]
+  rfl
+
+/-- **Everything reachable is collected.** -/
+theorem reachable_functions_are_collected (used : List (String × List String)) :
+    ∀ (fuel : Nat) (start : String) (r : List String), getUsedFuncs used fuel start = some r →
+      ∀ x, Reach used start x → x ∈ r := by
+  intro fuel
+  induction fuel with
+  | zero => intro start r h; simp [getUsedFuncs] at h
+  | succ fuel ih =>
+    intro start r h x hx
+    rw [getUsedFuncs_succ] at h
+    cases hg : assocGet used start with
+    | none =>
+      exfalso
+      cases hx with
+      | edge e => obtain ⟨cs, he, _⟩ := e; rw [hg] at he; cases he
+      | step e _ => obtain ⟨cs, he, _⟩ := e; rw [hg] at he; cases he
+    | some callees =>
+      simp only [hg] at h
+      obtain ⟨_, h2⟩ := collect_fold _ _ _ _ h
+      cases hx with
+      | edge e =>
+        obtain ⟨cs, he, hm⟩ := e
+        rw [hg] at he; cases he
+        exact (h2 x hm).1
+      | step e hr =>
+        obtain ⟨cs, he, hm⟩ := e
+        rw [hg] at he; cases he
+        obtain ⟨_, sub, hsub, hall⟩ := h2 _ hm
+        exact hall x (ih _ sub hsub x hr)
+
+def isKept (keep : List String) : Stmt → Bool
+  | .funcDef name _ _ _ _ => keep.contains name
+  | _ => true
+
+theorem cleanProgram_eq (used : List (String × List String)) (body out : List Stmt) (h : cleanProgram used body = some out) :
+    ∃ keep, getUsedFuncs used (used.length + 2) "" = some keep ∧ out = body.filter (isKept keep) := by
+  unfold cleanProgram at h
+  cases hk : getUsedFuncs used (used.length + 2) "" with
+  | none => simp [hk, bind, Option.bind] at h
+  | some keep =>
+    simp only [hk, bind, Option.bind, pure] at h
+    refine ⟨keep, rfl, ?_⟩
+    cases h
+    congr 1
+
+/-- **Removal of unused functions is safe**: every function definition that top-level code can reach
+    through recorded calls is still in the program. -/
+theorem removal_keeps_every_reachable_function (used : List (String × List String)) (body out : List Stmt)
+    (h : cleanProgram used body = some out) (name : String) (pub : Bool) (rets : List ValueType) (params : List Var) (fb : List Stmt)
+    (hin : Stmt.funcDef name pub rets params fb ∈ body) (hr : Reach used "" name) :
+    Stmt.funcDef name pub rets params fb ∈ out := by
+  obtain ⟨keep, hk, rfl⟩ := cleanProgram_eq used body out h
+  have := reachable_functions_are_collected used _ "" keep hk name hr
+  simp [List.mem_filter, hin, isKept, this]
+
+/-- removal drops nothing but function definitions, and keeps the order of what it keeps -/
+theorem removal_only_drops_functions (used : List (String × List String)) (body out : List Stmt)
+    (h : cleanProgram used body = some out) :
+    out.Sublist body ∧ ∀ st ∈ body, (∀ n p r ps b, st ≠ .funcDef n p r ps b) → st ∈ out := by
+  obtain ⟨keep, _, rfl⟩ := cleanProgram_eq used body out h
+  refine ⟨List.filter_sublist, ?_⟩
+  intro st hst hnf
+  have : isKept keep st = true := by
+    cases st with
+    | funcDef n p r ps b => exact absurd rfl (hnf n p r ps b)
+    | _ => rfl
+  simp [List.mem_filter, hst, this]
 
 end Tsh.C09
